@@ -9,14 +9,24 @@ def raise_problem(message):
     all_problems.add(message)
 
 
-def report_problems(console: Callable[[], Console]):
+def report_problems(console: Callable[[], Console], skip=frozenset()):
+    """Reports all problems and returns them.
+
+    Problems in `skip` are not reported again.
+    """
 
     global all_problems
-    if not all_problems:
-        return
+    problems = all_problems
+    all_problems = set()
+
+    new_problems = problems - set(skip)
+
+    if not new_problems:
+        return problems
+
     console().rule("[red]Problems")
-    for problem in all_problems:
+    for problem in new_problems:
         console().print(f"{problem}")
         console().print()
 
-    all_problems = set()
+    return problems
